@@ -51,8 +51,90 @@ def check_message_immutability():
         raise ExtractError("message/ is no longer evidently immutable-by-construction: " + "; ".join(bad))
 
 
+def fn_body(src, start):
+    """text of the brace-balanced block that starts at the first '{' at or after `start`"""
+    j = src.index("{", start)
+    d = 0
+    for k in range(j, len(src)):
+        if src[k] == "{":
+            d += 1
+        elif src[k] == "}":
+            d -= 1
+            if d == 0:
+                return src[j:k + 1]
+    raise ExtractError("unbalanced braces")
+
+
+SEND_LIKE = ["send(", "send_pci(", ".open(", "open_and_listen(", "open_for_sending(", "connect(", "spawn(", "send_message(", "send_to(", "resolve("]
+
+
+def gen_sim_cert():
+    """C13: per `Protocol::start` implementation: number of barrier waits and whether a
+    frame-producing call precedes the wait; barrier sizing; shutdown channel capacity; outer
+    timeout slack."""
+    import glob
+    rows = []
+    files = sorted(glob.glob(os.path.join(CORE, "**", "*.rs"), recursive=True) + glob.glob(os.path.join(ELVIS, "**", "*.rs"), recursive=True))
+    for p in files:
+        src = strip_comments(read(p))
+        if "impl Protocol for" not in src:
+            continue
+        for m in re.finditer(r"impl\s+Protocol\s+for\s+([A-Za-z0-9_<>:, ]+?)\s*\{", src):
+            impl = fn_body(src, m.end() - 1)
+            sm = re.search(r"async\s+fn\s+start\s*\(", impl)
+            if not sm:
+                raise ExtractError(f"{p}: impl Protocol for {m.group(1)} has no async fn start")
+            sig_end = impl.index(")", sm.end())
+            # skip to the body: first '{' after the return type
+            body = fn_body(impl, impl.index("StartError", sig_end))
+            waits = len(re.findall(r"\.wait\(\)\s*\.await", body))
+            pre = re.split(r"\.wait\(\)\s*\.await", body)[0] if waits else body
+            send_before = any(t in pre for t in SEND_LIKE)
+            name = os.path.relpath(p, os.path.join(REPO, "sim")) + "::" + re.sub(r"\s+", "", m.group(1))
+            rows.append((name, waits, send_before))
+    if len(rows) < 10:
+        raise ExtractError("found suspiciously few Protocol implementations: %d" % len(rows))
+    inet = re.sub(r"\s+", " ", strip_comments(read(os.path.join(CORE, "internet.rs"))))
+    mach = re.sub(r"\s+", " ", strip_comments(read(os.path.join(CORE, "machine.rs"))))
+    shut = re.sub(r"\s+", " ", strip_comments(read(os.path.join(CORE, "shutdown.rs"))))
+    sized = bool(re.search(r"let total_protocols: usize = machines \.iter\(\) \.map\(\|machine\| machine\.protocol_count\(\)\) \.sum\(\);", inet)) \
+        and "Barrier::new(total_protocols)" in inet \
+        and bool(re.search(r"for machine in machines \{.*?handles\.spawn\(machine\.start\(shutdown, initialized\)\);", inet))
+    per_proto = bool(re.search(r"for protocol in self\.iter\(\) \{.*?\.start\(shutdown_clone, initialized_clone, self_clone\).*?handles\.spawn\(fut\);", mach)) \
+        and bool(re.search(r"pub fn protocol_count\(&self\) -> usize \{ self\.protocols\.len\(\) \}", mach)) \
+        and bool(re.search(r"pub fn iter\(&self\).*?\{ self\.protocols\.values\(\)", mach))
+    mcap = re.search(r"broadcast::channel\((\d+)\)", shut)
+    if not mcap:
+        raise ExtractError("shutdown.rs: broadcast::channel(<literal>) not found")
+    mslack = re.search(r"tokio::time::timeout\(duration \+ Duration::from_secs\((\d+)\), future\)", inet)
+    if not mslack:
+        raise ExtractError("internet.rs: outer timeout(duration + Duration::from_secs(<literal>)) not found")
+    receiver_first = inet.find("shutdown.clone().receiver()") != -1 and inet.find("shutdown.clone().receiver()") < inet.find("handles.spawn(machine.start")
+    cell = ("let _ = self.first.set(ExitStatus::Exited);" in shut and "let _ = self.first.set(status.clone());" in shut
+            and inet.count("first_status.get().cloned().unwrap_or(result)") >= 2
+            and inet.find("let first_status = shutdown.first_status();") != -1
+            and inet.find("let first_status = shutdown.first_status();") < inet.find("handles.spawn(machine.start"))
+    lines = ["-- GENERATED from /repo sources by tools/extract.py on every check; do not edit",
+             "namespace Elvis.Gen",
+             "structure StartCert where", "  name : String", "  waits : Nat", "  sendBeforeWait : Bool", "deriving Repr, DecidableEq", "",
+             "/-- one row per `impl Protocol for T`: barrier waits in `start`, frame-producing call before the wait -/",
+             "def startRoutines : List StartCert := ["]
+    lines.append(",\n".join(f'  ⟨"{n}", {w}, {"true" if sb else "false"}⟩' for n, w, sb in rows))
+    lines += ["]", "",
+              f"def barrierSizedByProtocolCount : Bool := {'true' if sized else 'false'}",
+              f"def machineSpawnsStartPerProtocol : Bool := {'true' if per_proto else 'false'}",
+              f"def shutdownReceiverCreatedBeforeStart : Bool := {'true' if receiver_first else 'false'}",
+              "/-- run_internet returns the set-once first-request status when one exists -/",
+              f"def firstStatusCellUsed : Bool := {'true' if cell else 'false'}",
+              f"def shutdownChannelCapacity : Nat := {mcap.group(1)}",
+              f"def outerTimeoutSlackMs : Nat := {int(mslack.group(1)) * 1000}",
+              "end Elvis.Gen", ""]
+    write_if_changed("SimCert.lean", "\n".join(lines))
+
+
 def main():
     check_message_immutability()
+    gen_sim_cert()
     consts = ["-- GENERATED from /repo sources by tools/extract.py on every check; do not edit", "namespace Elvis.Gen", "end Elvis.Gen", ""]
     write_if_changed("Consts.lean", "\n".join(consts))
 
